@@ -4,6 +4,8 @@ import (
 	"bytes"
 	"context"
 	"errors"
+	"go.uber.org/zap/zapcore"
+	"io"
 	"net/http"
 	"net/url"
 	"strings"
@@ -84,7 +86,12 @@ func (w *fakeRW) releaseFail() {
 	}
 }
 
-func zapNop() *zap.Logger { return zap.NewNop() }
+// zapNop: despite its name, a logger that really encodes every entry and every field it is given (JSON encoder,
+// debug level, output discarded): the code that only runs when a log level is enabled — logger.Check(…) branches,
+// MarshalLogObject of subscribers and updates — is part of what the families execute. (zap.NewNop() skips all of it.)
+func zapNop() *zap.Logger {
+	return zap.New(zapcore.NewCore(zapcore.NewJSONEncoder(zap.NewProductionEncoderConfig()), zapcore.AddSync(io.Discard), zapcore.DebugLevel))
+}
 
 func newRW() *fakeRW { return &fakeRW{hdr: http.Header{}} }
 
@@ -289,7 +296,7 @@ type fixture struct {
 }
 
 func (c hubCfg) options(f *fixture) []mercure.Option {
-	opts := []mercure.Option{mercure.WithLogger(zap.NewNop()), mercure.WithPublisherJWT(f.pubKey.ConfigKey(), c.PubAlg)}
+	opts := []mercure.Option{mercure.WithLogger(zapNop()), mercure.WithPublisherJWT(f.pubKey.ConfigKey(), c.PubAlg)}
 	if c.SubAlg != "" {
 		opts = append(opts, mercure.WithSubscriberJWT(f.subKey.ConfigKey(), c.SubAlg))
 	}
